@@ -239,6 +239,10 @@ def after_run(ctx) -> None:
     if ctx.prop in ("C01", "C16"):
         pm_files = {rel for rel in ctx.repo.modules if rel.startswith(PKG) and not rel.startswith((PKG + "/resources", PKG + "/app"))}
     try:
+        cross_key(ctx, pm_files)
+    except Exception as e:
+        ctx.soft_fail(f"hygiene: internal {type(e).__name__}: {e}")
+    try:
         process_memory(ctx, pm_files, "HO" if ctx.prop == "C01" else ("IM" if ctx.prop == "C16" else "PY"))
     except Exception as e:
         ctx.soft_fail(f"hygiene: internal {type(e).__name__}: {e}")
@@ -386,6 +390,42 @@ def process_memory(ctx, files: Set[str], rule_prefix: str = "PY") -> int:
                           why="the function remembers something between calls that is not in the simulation state: called again for an earlier (or the same) state — a kept state stepped "
                               "twice, a roll-back, a second run in the same environment — it answers from what it saw before, not from its arguments",
                           construct=f"stateful-closure:{fn.qualname}")
+    return n
+
+
+def cross_key(ctx, files: Set[str]) -> int:
+    """`d["a"] = conv(d["b"])` with a != b: a setting normalised in place from ANOTHER key of the same table (the copy / paste slip of a
+    coercion block). A value derived from several keys, or from the same key, is not this."""
+    n = 0
+    for rel in sorted(files):
+        m = ctx.repo.modules.get(rel)
+        if m is None:
+            continue
+        for fn in m.funcs.values():
+            for st_ in ast.walk(fn.node):
+                if not (isinstance(st_, ast.Assign) and len(st_.targets) == 1 and isinstance(st_.targets[0], ast.Subscript)):
+                    continue
+                t = st_.targets[0]
+                if not (isinstance(t.slice, ast.Constant) and isinstance(t.slice.value, str) and isinstance(t.value, ast.Name)):
+                    continue
+                reads = [x for x in ast.walk(st_.value) if isinstance(x, ast.Subscript) and isinstance(x.value, ast.Name) and x.value.id == t.value.id
+                         and isinstance(x.slice, ast.Constant) and isinstance(x.slice.value, str)]
+                gets = [x for x in ast.walk(st_.value) if isinstance(x, ast.Call) and isinstance(x.func, ast.Attribute) and x.func.attr == "get" and isinstance(x.func.value, ast.Name)
+                        and x.func.value.id == t.value.id and x.args and isinstance(x.args[0], ast.Constant)]
+                keys = {x.slice.value for x in reads} | {x.args[0].value for x in gets}
+                if len(keys) != 1:
+                    continue
+                n += 1
+                other = next(iter(keys))
+                v = st_.value
+                simple = isinstance(v, ast.Subscript) or (isinstance(v, ast.Call) and isinstance(v.func, ast.Name) and v.func.id in ("float", "int", "str", "bool", "tuple", "list", "Path") and len(v.args) == 1)
+                if other != t.slice.value and simple:
+                    ctx.violation("H3", "PY.cross-key", f"{fn.qualname}: {t.value.id}[{t.slice.value!r}] is set from {t.value.id}[{other!r}]", fn, st_,
+                                  why=f"the setting `{t.slice.value}` is overwritten with the (converted) value of `{other}`: whatever the input said for `{t.slice.value}` is lost and the code "
+                                      f"that compares against it uses the other setting's value",
+                                  construct=f"cross-key:{fn.qualname}:{t.slice.value}<-{other}")
+                else:
+                    ctx.ok("H3", "PY.cross-key", f"{fn.qualname}: {t.value.id}[{t.slice.value!r}] normalised from its own key", fn, st_)
     return n
 
 
